@@ -41,3 +41,8 @@ CHECKS["C13"] = ("exploration",
    "The same stream sets are written under many physical layouts by an independent compound-file writer and read back byte for byte through a feature-gated hook around Cfb::new/get_stream; generated workbooks are opened under every layout and compared with the model.",
    "trusted base: the compound-file reference writer; stream names unique per container",
    "DESIGN.md §7 C13")
+CHECKS["C12"] = ("exploration",
+   "runtime monitoring: exhaustive single-cut enumeration of CONTINUE split points + random multi-cut plans vs string-equality oracle",
+   "Shared-string tables are written with an explicit split plan; for small tables every single legal cut point x both re-compression choices is enumerated (pairs in thorough), large tables get random plans and forced cuts at the record limit; every string is referenced by a uniquely placed cell so that a mis-consumed fragment shows as a shift of all later strings. Sheet name, LABEL and FORMULA+STRING values are checked in 8-bit and 16-bit storage.",
+   "trusted base: the SST/CONTINUE reference encoder; string headers are never split",
+   "DESIGN.md §7 C12")
